@@ -428,6 +428,10 @@ func (t *thread) Step() (bool, error) {
 			_ = t.astack.DropN(t.astack.Depth())
 			t.lastCodeSep = 0
 			t.shiftScript()
+			// there are zero length scripts in the wild
+			if t.scriptIdx < len(t.scripts) && len(t.scripts[t.scriptIdx]) == 0 {
+				t.scriptIdx++
+			}
 			return t.scriptIdx >= len(t.scripts), nil
 		}
 		return true, err
